@@ -1182,6 +1182,96 @@ theorem min_full_same (e : PExpr) (hw : wf e = true) :
     parse (fuel e) (renderMin e) = parse (fuelFull e) (renderFull e) := by
   rw [parse_renderMin e hw, parse_renderFull e hw]
 
+/-! ## the statement-level entry point the driver runs (`P2sh.Parser.parseTop`) -/
+
+/-- the first tokens do not make `parse_statement` leave `parse_expr_statement` / take the label branch -/
+def startOK : List Tok → Bool
+  | [] => false
+  | t :: rest => !(statementKeywords.contains t.ttype) && t.ttype != "Eof" && !(t.ttype == "Identifier" && peekIs "Colon" rest)
+
+theorem start_facts :
+    (∀ op ∈ prefixOps, statementKeywords.contains op = false ∧ op ≠ "Eof" ∧ op ≠ "Identifier") ∧
+    (∀ op ∈ infixToks, op ≠ "Colon") := by decide +kernel
+
+theorem startOK_wrap_true (ts rest : List Tok) : startOK (wrapIf true ts ++ rest) = true := by
+  have h1 : statementKeywords.contains "LeftParen" = false := by decide
+  have h2 : ("LeftParen" != "Eof") = true := by decide
+  have h3 : ("LeftParen" == "Identifier") = false := by decide
+  simp only [wrapIf, if_true, List.cons_append, startOK, ttype_t, h1, h2, h3, Bool.false_and, Bool.not_false, Bool.and_self]
+
+theorem startOK_left {b : Bool} {ra : List Tok} {op : String} {tl : List Tok} (hop : op ∈ infixToks)
+    (ih : ∀ rest, peekIs "Colon" rest = false → startOK (ra ++ rest) = true) :
+    startOK (wrapIf b ra ++ Tok.t op :: tl) = true := by
+  cases b with
+  | true => exact startOK_wrap_true _ _
+  | false =>
+    simp only [wrapIf, Bool.false_eq_true, if_false]
+    exact ih _ (by simpa using start_facts.2 op hop)
+
+theorem startOK_render (T : Tbl) : ∀ (x : PExpr), wfT T x = true → ∀ rest, peekIs "Colon" rest = false →
+    startOK (renderT T x ++ rest) = true
+  | .int _, _, rest, _ => by simp [renderT, startOK]; decide
+  | .bool b, _, rest, _ => by cases b <;> simp [renderT, startOK] <;> decide
+  | .ident _, _, rest, h => by simp only [renderT, List.cons_append, List.nil_append, startOK, ttype_ident, h]; decide
+  | .un op e, h, rest, _ => by
+    simp only [wfT, Bool.and_eq_true, List.contains_iff_mem] at h
+    obtain ⟨k1, k2, k3⟩ := start_facts.1 op h.1
+    have k2' : (op != "Eof") = true := by simpa using k2
+    have k3' : (op == "Identifier") = false := by simpa using k3
+    simp only [renderT, List.cons_append, startOK, ttype_t, k1, k2', k3', Bool.false_and, Bool.not_false, Bool.and_self]
+  | .bin op a b, h, rest, _ => by
+    simp only [wfT, Bool.and_eq_true, List.contains_iff_mem] at h
+    rw [renderT, List.append_assoc, List.cons_append]
+    exact startOK_left (mem_infix_of_bin h.1.1) (startOK_render T a h.1.2)
+  | .assign a b, h, rest, _ => by
+    simp only [wfT, Bool.and_eq_true] at h
+    rw [renderT, List.append_assoc, List.cons_append]
+    exact startOK_left (by simp [infixToks]) (startOK_render T a h.1.2)
+  | .range op a b, h, rest, _ => by
+    simp only [wfT, Bool.and_eq_true, List.contains_iff_mem] at h
+    have wa : wfT T a = true := by cases a <;> cases b <;> simp_all [validRange, wfT]
+    rw [renderT, List.append_assoc, List.cons_append]
+    exact startOK_left (mem_infix_of_range h.1) (startOK_render T a wa)
+  | .index a i, h, rest, _ => by
+    simp only [wfT, Bool.and_eq_true] at h
+    rw [renderT, List.append_assoc, List.cons_append]
+    exact startOK_left (by simp [infixToks]) (startOK_render T a h.1)
+  | .call f args, h, rest, _ => by
+    simp only [wfT, Bool.and_eq_true] at h
+    rw [renderT, List.append_assoc, List.cons_append]
+    exact startOK_left (by simp [infixToks]) (startOK_render T f h.1)
+
+/-- the function the driver runs on the scanner's tokens, on `renderMin e` followed by `Eof` -/
+theorem parseTop_renderMin (e : PExpr) (hw : wf e = true) (F : Nat) (hF : fuel e ≤ F) :
+    parseTop F (renderMin e ++ [.t "Eof"]) = .ok e := by
+  have hs : stops assignRank [Tok.t "Eof"] := stops_closer (by simp [closers])
+  have hp := parseExpr_renderMin e hw [.t "Eof"] hs F hF
+  have hst := startOK_render docTbl e hw [.t "Eof"] (by decide)
+  unfold parseTop
+  change startOK (renderMin e ++ [Tok.t "Eof"]) = true at hst
+  generalize hts : renderMin e ++ [Tok.t "Eof"] = ts at hp hst
+  cases ts with
+  | nil => simp [startOK] at hst
+  | cons t rest =>
+    simp only [startOK, Bool.and_eq_true, Bool.not_eq_true', bne_iff_ne, ne_eq] at hst
+    obtain ⟨⟨h1, h2⟩, h3⟩ := hst
+    have h2' : (t.ttype == "Eof") = false := by simpa using h2
+    have h4 : peekIs "Semicolon" [Tok.t "Eof"] = false := by decide
+    simp only [h1, h2', Bool.or_self, Bool.false_eq_true, if_false, h3, hp, ok_bind, h4]
+    rfl
+
+/-- … and on scanner tokens: any token list the scanner hands over whose parser view (`ofToken`) is
+`renderMin e` followed by `Eof` is parsed to `e` with the fuel the driver uses -/
+theorem parseTokens_renderMin (e : PExpr) (hw : wf e = true) (toks : List P2sh.Scanner.Token)
+    (h : toks.map ofToken = renderMin e ++ [.t "Eof"]) : parseTokens toks = .ok e := by
+  have hl : toks.length = (renderMin e).length + 1 := by
+    have := congrArg List.length h
+    simpa using this
+  unfold parseTokens
+  rw [h]
+  exact parseTop_renderMin e hw _ (by simp only [fuel, hl]; omega)
+
+
 /-! ## non-vacuity: concrete trees, their two renderings, and what the parser model makes of token lists -/
 section examples
 private def i (n : Nat) : PExpr := .int n
